@@ -3,7 +3,7 @@ boundary families and which oracle clauses (O) are run."""
 from fractions import Fraction as F
 
 from .core import Case, gen_random, special_matrix
-from .sigs import SIG, EXTRA as EXTRA_OPS, C18_OPS, C16_OPS
+from .sigs import SIG, EXTRA as EXTRA_OPS, C18_OPS, C16_OPS, EXTRA2 as EXTRA2_OPS, C17_FORM_OPS, EXTRA3 as EXTRA3_OPS, C18_OPS3
 
 REG = {}
 
@@ -54,8 +54,8 @@ class Base:
 def ops_with_prefix(*prefixes, exclude=()):
     out = []
     for k in SIG:
-        if k in EXTRA_OPS:      # the C18 / C16 operations of sigs.EXTRA belong to those two properties only
-            continue
+        if k in EXTRA_OPS or k in EXTRA2_OPS or k in EXTRA3_OPS:      # the C18 / C16 operations of sigs.EXTRA (and the operand forms of
+            continue                                # sigs.EXTRA2: C17) belong to those properties only
         if any(k.startswith(p) for p in prefixes) and k not in exclude:
             out.append(k)
     return out
@@ -1225,7 +1225,10 @@ class C16(Base):
                  "body reads exactly the named fields) and of the positional views + exhaustive native correspondence: one "
                  "generated call site per accessor (550), every conversion / view / index / range / pointer / mint form at every "
                  "position for i32, f64, f32 and a non-numeric Copy type, the generated macro text of this build parsed and fed "
-                 "through the Lean generator model, and the Index/From/Into/AsRef/AsMut impl inventory regenerated from the source")
+                 "through the Lean generator model, and the Index/From/Into/AsRef/AsMut impl inventory regenerated from the source + trace "
+                 "translation of Index (quaternion included), IndexMut stores, swap_elements, matrix element stores and truncate_n at "
+                 "every in-range index (kernels regenerated from the source on every run, re-proved equal to the model, with end-to-end "
+                 "theorems: a store is read back at that index and only there) + exact differential correspondence for these ops")
     level_note = ("Trusted: Lean kernel + Mathlib; rustc's repr(C) layout and the transmutes are exercised natively (miri in the "
                   "thorough tier), not proved; the generator model is tied to the macro text build.rs produced for this build; "
                   "the impl inventory catches conversions the harness does not know about.")
@@ -1260,8 +1263,13 @@ class C16(Base):
 class C18(Base):
     title = "approximate-equality and predicate methods test every component"
     design_ref = "§6 C18"
-    ops = C18_OPS     # the approx relations of the compound types, explicit and default tolerances (sigs.EXTRA; kernels: tracetab_ops.py)
-    technique = BOOK_TECH
+    # the approx relations of the compound types, explicit and default tolerances (sigs.EXTRA; kernels: tracetab_ops.py), and of
+    # Euler / Decomposed / Basis2 / Basis3 (sigs.EXTRA3; kernels: tracetab_ops3.py)
+    ops = C18_OPS + C18_OPS3
+    technique = (BOOK_TECH + " + trace translation of the three relations of every compound type (explicit and default tolerances): one "
+                 "kernel per short-circuit position regenerated from the source on every run, re-proved equal to the model relation, "
+                 "with end-to-end theorems (exactly one path is consistent; its boolean is true iff the scalar relation with the same "
+                 "tolerance arguments holds on every component pair) + exact differential correspondence for these ops")
     level_note = ("Trusted: Lean kernel + Mathlib; the approx crate's scalar relations are the parameter `r` of the model (their "
                   "verdicts are read off the implementation per component and fed to the model); the tie is exhaustive over "
                   "every compound type x component position x {inside, outside} each tolerance x f32/f64, not a proof about "
@@ -1275,7 +1283,7 @@ class C18(Base):
         multiple of the tolerance around the boundary (exactly on it, just inside, just outside), all components inside /
         exactly one component `k` outside / the components from `k` on outside; relative and ulps clauses with a scale at
         which they -- not the absolute clause -- decide; default forms around `2^-52` and around the matrices' `1e-6`"""
-        from .sigs import APPROX_TYPES, SIZES
+        from .sigs import APPROX_TYPES, APPROX_TYPES3, SIZES
         out = []
         reps = 2 if tier == "quick" else 12
         e52 = F(1, 2 ** 52)
@@ -1292,8 +1300,9 @@ class C18(Base):
                 b.append(x + f * scale(x))
             return b
 
-        for ty, kind in APPROX_TYPES.items():
-            n = SIZES[kind]
+        # (for Basis2 / Basis3 the arguments moved are the angle / the quaternion the basis is built from)
+        for ty, kind in list(APPROX_TYPES.items()) + list(APPROX_TYPES3.items()):
+            n = sum(SIZES[k] for k in kind.split())
             modes = [("in", 0)] + [("one", k) for k in range(n)] + [("from", k) for k in range(n)]
             for _ in range(reps):
                 for mode, k in modes:
@@ -1358,11 +1367,18 @@ class C17(Base):
     design_ref = "§6 C17"
     ops = ["v3.sum_list", "v3.sum_list_ref", "m3.sum_list", "m3.product_list", "m3.product_list_ref", "q.sum_list",
            "q.sum_list_ref", "q.product_list", "q.product_list_ref", "b3.product_list", "b3.product_list_ref",
-           "b2.product_list", "rad.sum_list", "rad.sum_list_ref", "deg.sum_list", "v4.sum_list", "m4.product_list"]
+           "b2.product_list", "rad.sum_list", "rad.sum_list_ref", "deg.sum_list", "v4.sum_list", "m4.product_list",
+           # the list ops whose kernels are traced at the lengths 0, 1, 2, 4, 5 (tracetab_ops2.py)
+           "v2.sum_list", "v2.sum_list_ref", "v4.sum_list_ref", "m2.sum_list", "m2.product_list", "m2.product_list_ref",
+           "m4.sum_list", "p2.centroid"] + C17_FORM_OPS   # + every operand form of every operator and the by-reference folds
+    #                                                        `m<n>.sum_list_ref`, `b2.product_list_ref` (sigs.EXTRA2; kernels: tracetab_ops2.py)
     inventory = "ops"
     technique = ("Lean 4 theorems about a model in which an operator is one function (forms erased; folds) + exhaustive native "
                  "correspondence: every operator impl listed by a rustdoc-JSON inventory regenerated from the source is executed in "
-                 "every operand form and compared bit for bit; random straight-line programs in random forms")
+                 "every operand form and compared bit for bit; random straight-line programs in random forms; every reference-operand "
+                 "and compound-assignment impl of the compound types is also an op of its own: run at the exact scalar against the model "
+                 "(the assignment forms against the field-by-field assignment definitions), traced, and proved to return what the "
+                 "by-value kernel returns; Sum / Product by value and by reference traced at the lengths 0..5")
     level_note = ("Trusted: Lean kernel + Mathlib. In the model the forms are erased by construction, so the theorems are thin; the "
                   "weight is on the tie, which executes all operand forms of all 1089 operator/Sum/Product impls (inventory "
                   "regenerated from /repo on every run; an impl without a call site is reported) on shared operands, bit for bit.")
@@ -1390,4 +1406,42 @@ class C17(Base):
                 ms += rand_mat(rng, 3, "small") if ln < 10 else _special_unimodular(rng, 3)
             out.append(Case("m3.product_list", ms, family="fold-length"))
             out.append(Case("m3.product_list_ref", ms, family="fold-length"))
+        # the traced lengths of the other list ops, by value and by reference on the same operands
+        for ln in (0, 1, 2, 3, 4, 5):
+            for ty, n, ops in (("v2", 2, ("sum_list", "sum_list_ref")), ("v4", 4, ("sum_list", "sum_list_ref")),
+                               ("m2", 4, ("sum_list", "sum_list_ref", "product_list", "product_list_ref")),
+                               ("m3", 9, ("sum_list", "sum_list_ref")), ("m4", 16, ("sum_list", "sum_list_ref")),
+                               ("b2", 1, ("product_list", "product_list_ref")),
+                               ("q", 4, ("sum_list", "sum_list_ref")), ("rad", 1, ("sum_list", "sum_list_ref"))):
+                vs = []
+                for _ in range(ln):
+                    vs += rng.distinct(n)
+                out += [Case(f"{ty}.{op}", vs, family="fold-length") for op in ops]
+            if ln:
+                ps = []
+                for _ in range(ln):
+                    ps += rng.distinct(2)
+                out.append(Case("p2.centroid", ps, family="fold-length"))
+        # operand forms: every form of one operator on the SAME operands (distinct components; a zero / unit / negative
+        # scalar for the scalar right-hand sides; equal operands for `a op a`)
+        from .sigs import FORM_FAMILIES, FORM_KIND, FORM_VEC, SIZES
+        for tys, op, sg, forms in FORM_FAMILIES:
+            for ty in tys:
+                ks = sg.split()
+                n = SIZES[FORM_KIND[ty]]
+                sets = []
+                if ks == ["T"]:
+                    sets = [rng.distinct(n), [F(0)] * n]
+                elif ks[1] == "x":
+                    u = rng.distinct(n)
+                    sets = [u + [s] for s in (F(0), F(1), F(-1), F(1, 3), rng.rat_nz())]
+                elif ks[1] == "T":
+                    u = rng.distinct(n)
+                    sets = [u + rng.distinct(n), u + u, u + [F(0)] * n, [F(0)] * n + u, u + [-x for x in u]]
+                else:
+                    m = SIZES[FORM_VEC[ty]]
+                    u = rng.distinct(n)
+                    sets = [u + rng.distinct(m), u + [F(0)] * m, [F(0)] * n + rng.distinct(m)]
+                for args in sets:
+                    out += [Case(f"{ty}.{op}.{f}", args, family="operand-forms") for f in forms]
         return out
